@@ -9,6 +9,7 @@ def main(argv):
     rep = vlib.Report(PID, 'model_checking', argv)
     vlib.build_harness()
     th = rep.tier == 'thorough'
+    parts_subject.model_part(rep)
     parts_subject.run_seq(rep, PID, th)
     parts_subject.lin_part(rep, PID, 2000 if th else 1200, [rep.seed * 100 + i for i in range(6 if th else 1)], park=False)
     parts_subject.lin_part(rep, PID, 150 if th else 60, [rep.seed * 100 + 50 + i for i in range(3 if th else 1)], park=True)
